@@ -69,6 +69,12 @@ EDITS = {
     "entrypoint_zero": ("libyara/exec.c", "      r1.i = context->entry_point;", "      r1.i = context->entry_point == YR_UNDEFINED ? 0 : context->entry_point;", None),
     "length_first_match_only": ("libyara/exec.c", "      i = 1;\n      r3.i = YR_UNDEFINED;\n\n      while (match != NULL && r3.i == YR_UNDEFINED)\n      {\n        if (r1.i == i)\n          r3.i = match->match_length;",
                                 "      i = 1;\n      r3.i = YR_UNDEFINED;\n\n      while (match != NULL && r3.i == YR_UNDEFINED)\n      {\n        if (r1.i >= i)\n          r3.i = match->match_length;", None),
+    # ---- third batch: disabled rules (F68) and changes of the code generator that keep the verdicts (the tie must notice them)
+    "f68_reverted_parser": ("libyara/parser.c", "        FAIL_ON_ERROR(yr_parser_emit_push_const(yyscanner, 0));\n        FAIL_ON_ERROR(yr_parser_emit(yyscanner, OP_OR, NULL));\n", "", None),
+    "f68_reverted_grammar": ("libyara/grammar.y", "          if (result == ERROR_SUCCESS)\n            result = yr_parser_emit_push_const(yyscanner, 0);\n\n          if (result == ERROR_SUCCESS)\n            result = yr_parser_emit(yyscanner, OP_OR, NULL);\n", "", None),
+    "codegen_double_or": ("libyara/parser.c", "        FAIL_ON_ERROR(yr_parser_emit(yyscanner, OP_OR, NULL));\n        matching++;", "        FAIL_ON_ERROR(yr_parser_emit(yyscanner, OP_OR, NULL));\n        FAIL_ON_ERROR(yr_parser_emit_push_const(yyscanner, 0));\n        FAIL_ON_ERROR(yr_parser_emit(yyscanner, OP_OR, NULL));\n        matching++;", None),
+    "push_rule_disabled_false": ("libyara/exec.c", "      if (RULE_IS_DISABLED(rule))\n      {\n        r2.i = YR_UNDEFINED;", "      if (RULE_IS_DISABLED(rule))\n      {\n        r2.i = 0;", None),
+    "disabled_rule_evaluated": ("libyara/exec.c", "      bool skip_rule = RULE_IS_DISABLED(current_rule);", "      bool skip_rule = false;", None),
 }
 
 
